@@ -5,7 +5,7 @@ run, the worktree is restored, and the outcome is written to selftest/req_result
 
     VERIF_REPO=/var/tmp/ag/req/repo python3 tools/selftest_req.py [name ...]
 """
-import json, os, subprocess, sys
+import glob, json, os, shutil, subprocess, sys, time
 
 V = os.path.dirname(os.path.dirname(os.path.abspath(__file__)))
 REPO = os.environ.get("VERIF_REPO", "/repo")
@@ -93,6 +93,9 @@ def sh(cmd, cwd=None, env=None):
     return p.returncode, p.stdout
 
 
+T0 = time.time()
+
+
 def main():
     want = set(sys.argv[1:])
     out = {}
@@ -138,6 +141,9 @@ def main():
                         pass
         finally:
             open(fp, "w").write(src)
+            for dpath in glob.glob("/tmp/hv-c23-*"):       # scratch folders a failing C23 run keeps for its replay
+                if os.path.getmtime(dpath) >= T0:
+                    shutil.rmtree(dpath, ignore_errors=True)
         out[name] = res
         print(name, json.dumps({k: res.get(k) for k in ("exit", "violations", "with_failing_input", "caught", "result")}))
         json.dump(out, open(rp, "w"), indent=1, sort_keys=True)
